@@ -691,7 +691,11 @@ def post(run, results, model):
             cf = dict(x.split("=", 1) for x in l.split() if "=" in x)
             mf = dict(x.split("=", 1) for x in o.split() if "=" in x)
             # compare what both sides state (the model has no entry for the specifics' ctx offset of subtypes: only the base structs)
-            diff = [(k, cf[k], mf.get(k)) for k in cf if k in mf and cf[k] != mf[k]]
+            diff = [(k, cf[k], mf.get(k)) for k in cf if k in mf and cf[k] != mf[k] and cf[k] != "-"]
+            # the span the model's RESET wipes = what the C passes to memset (the specifics' struct_size, else the C type)
+            span = cf.get("ss") if cf.get("ss", "-") != "-" else cf.get("sizeof")
+            if mf.get("wiped") != span:
+                diff.append(("wiped", span, mf.get("wiped")))
             if diff or not mf:
                 run.violation("correspondence:HeapX.layout", {"what": "the layout of the leaf structure in the C (offsetof / sizeof / specifics) differs from the model's table: %s" % diff,
                                                               "module": m["text"], "type": tn, "c": l, "model": o, "command_line": "layout %s" % tn}, no_input=True)
